@@ -25,7 +25,11 @@ class Opts:
         self.join_kw = "join"
         self.qualify = None           # write unqualified table names as <qualify>.<name>
         self.where_op = "in"
+        self.names_pool = None        # list of alias names used in order (JSON-friendly form of names)
         self.__dict__.update(kw)
+        if self.names_pool and not self.names:
+            pool = list(self.names_pool)
+            self.names = lambda i: pool[(i - 1) % len(pool)] if i <= len(pool) else "q%d" % i
 
 
 class R:
@@ -38,6 +42,8 @@ class R:
 
     def ident(self, s):
         o = self.o
+        if s.startswith('"'):
+            return s
         if o.quote and s.replace("_", "").isalnum() and s.lower() == s:
             return o.quote[0] + s + o.quote[1]      # quoting an identifier that is already lower-case
         if o.ident_upper:
